@@ -22,11 +22,13 @@ var Fields []string
 type pattern []field
 
 func (p pattern) write(b *bytes.Buffer, e *Event) {
+	// only the empty pattern writes nothing: an event whose fields
+	// all happen to be empty is still one (empty) line
+	if len(p) == 0 {
+		return
+	}
 	for _, fn := range p {
 		fn(b, e)
-	}
-	if b.Len() == 0 {
-		return
 	}
 	b.WriteRune('\n')
 }
